@@ -163,7 +163,62 @@ def wireJudge (f : List String) (out : String) : String :=
     | _, _ => "bad:unparsable:" ++ out
   | _, _ => "bad:unparsable:" ++ out
 
+/-- c17.e2e: the merged values on a real listener; `bighdr` / `stall` model what net/http documents
+(MaxHeaderBytes + 4096 bytes of slack; ReadHeaderTimeout, falling back to ReadTimeout): trusted. -/
+def e2eModel : List String → String
+  | [g, action] =>
+    match parseGroup g with
+    | none => "bad-case"
+    | some g =>
+      let t := makeTimeouts (g.map (·.1)) defaultTimeouts
+      let h := makeHeaderLimit (g.map (·.2))
+      if action = "fields" then s!"{t.read} {t.header} {t.write} {t.idle} {h}"
+      else if action.startsWith "bighdr:" then
+        match (action.drop 7).toString.toNat? with
+        | some n => if h != 0 && n > h + 4096 then "431" else "200"
+        | none => "bad-case"
+      else if action = "stall" then
+        let eff := if t.header != 0 then t.header else t.read
+        if eff != 0 && eff ≤ 1000000000 then "closed" else "open"
+      else "bad-case"
+  | _ => "bad-case"
+
+def e2eJudge (f : List String) (out : String) : String :=
+  match f with
+  | [g, action] =>
+    match parseGroup g with
+    | none => "bad:unparsable:case"
+    | some grp =>
+      if action = "fields" then listenerJudge [g] out
+      else if action.startsWith "bighdr:" then
+        match (action.drop 7).toString.toNat? with
+        | none => "bad:unparsable:case"
+        | some n =>
+          let nz := (grp.map (·.2)).filter (· != 0)
+          if nz.any (fun l => n > l + 4096) then
+            (if out = "431" then "ok" else "bad:header-limit-not-min:a header beyond the strictest limit (plus net/http's slack) was accepted")
+          else if nz.all (fun l => n ≤ l) then
+            (if out = "200" then "ok" else "bad:header-limit-not-min:a header within every configured limit was refused")
+          else "ok"
+      else if action = "stall" then
+        let hs := grp.map (·.1.header)
+        let rs := grp.map (·.1.read)
+        let short := fun (v : TSetting) => match v with
+          | some d => d != 0 && d ≤ 500000000
+          | none => false
+        let lax := fun (v : TSetting) => match v with
+          | some d => d = 0 || d ≥ 5000000000
+          | none => true
+        if hs.any short then
+          (if out = "closed" then "ok" else "bad:not-strictest:a stalled request header outlived the strictest header timeout")
+        else if hs.all lax && rs.all lax then
+          (if out = "open" then "ok" else "bad:not-strictest:a connection was cut although no site sets a short timeout")
+        else "ok"
+      else "bad:unparsable:case"
+  | _ => "bad:unparsable:case"
+
 def streams : List Driver.Stream := [
+  { name := "c17.e2e", model := e2eModel, judge := e2eJudge },
   { name := "c17.wire", model := wireModel, judge := wireJudge },
   { name := "c17.reader", model := readerModel, judge := readerJudge },
   { name := "c17.scope", model := readerModel, judge := readerJudge },
